@@ -24,6 +24,12 @@ def rs(rnd, n=None, maxlen=60):
     if n >= 2 and rnd.random() < 0.04:
         k = rnd.randrange(n - 1)
         out = out[:k] + rnd.choice([DQ, SQ, chr(92) * 2, DQ * 2]) + out[k + 2:]      # doubled delimiters and backslashes: characters like any other
+    if n >= 1 and rnd.random() < 0.05:
+        # control characters in the company they keep in pasted text (terminal escape sequences, line ends, backspacing): CLEAN removes
+        # the control characters - the printing characters of the sequence stay
+        k = rnd.randrange(len(out) + 1)
+        out = (out[:k] + rnd.choice(['\x1b[1;31m', '\x1b[0m', '\x1b[Z', '\x1b]0;t\x07', '\x1b(B', 'a\x08', '\r\n', '\x1b[2J', '\x1bM', '\x1b[?25l', '\x0e\x0f', '\x1b[38;5;196m',
+                                     chr(rnd.randrange(32)) + rnd.choice('[]()m;0')]) + out[k:])[:max(n, 12)]
     return out
 
 
